@@ -7,7 +7,7 @@ a scratch worktree that both unedited suites are green with the patch."""
 import json, os, re, shutil, subprocess, sys
 ROOT = os.path.dirname(os.path.dirname(os.path.abspath(__file__)))
 REPO = os.environ.get("VERIF_REPO", "/repo")
-WT = "/tmp/benverify"
+WT = os.environ.get("BENVERIFY_WT", "/tmp/benverify")
 FAST = ["C%02d" % i for i in range(1, 21) if i not in (16, 17, 19)]
 
 
